@@ -40,26 +40,44 @@ theorem pyInt_renderInt (n : Int) (h : (Nat.toDigits 10 n.natAbs).length ≤ Iso
     congr 1
     omega
 
-theorem limit_prefix {α : Type} (g : Bool) (n : Option Nat) (xs : List α) : limit g n xs <+: xs := by
-  unfold limit
+theorem pyPrefix_prefix {α : Type} (xs : List α) (stop : Int) : pyPrefix xs stop <+: xs := by
+  unfold pyPrefix
+  split <;> exact List.take_prefix _ _
+
+theorem limitWith_prefix {α : Type} (test : Int → Bool) (stop : Int → Int) (n : Option Nat) (xs : List α) :
+    limitWith test stop n xs <+: xs := by
+  unfold limitWith
   split
   · exact List.prefix_refl _
   · split
+    · exact pyPrefix_prefix _ _
     · exact List.prefix_refl _
-    · exact List.take_prefix _ _
 
-theorem limit_longest {α : Type} (n : Option Nat) (xs : List α) {g : Bool} (hg : g = true) :
+/-- What the prefix theorems need from the generated `if <test>:` and `[:<stop>]`. -/
+structure LimitFacts (test : Int → Bool) (stop : Int → Int) : Prop where
+  zero : test 0 = false
+  pos : ∀ k : Nat, test ((k + 1 : Nat) : Int) = true ∧ stop ((k + 1 : Nat) : Int) = ((k + 1 : Nat) : Int)
+
+theorem limitWith_longest {α : Type} {test : Int → Bool} {stop : Int → Int} (L : LimitFacts test stop)
+    (n : Option Nat) (xs : List α) :
     (match n with
-     | none => limit g n xs = xs
-     | some 0 => limit g n xs = xs
-     | some (k + 1) => (limit g n xs).length ≤ k + 1 ∧ ∀ q, q <+: xs → q.length ≤ k + 1 → q <+: limit g n xs) := by
-  subst hg
+     | none => limitWith test stop n xs = xs
+     | some 0 => limitWith test stop n xs = xs
+     | some (k + 1) => (limitWith test stop n xs).length ≤ k + 1 ∧
+        ∀ q, q <+: xs → q.length ≤ k + 1 → q <+: limitWith test stop n xs) := by
   match n with
   | none => rfl
-  | some 0 => rfl
+  | some 0 =>
+    show (if test ((0 : Nat) : Int) = true then _ else xs) = xs
+    have : test ((0 : Nat) : Int) = false := L.zero
+    rw [this]; rfl
   | some (k + 1) =>
-    simp only [limit, Bool.true_and, Nat.add_eq_zero_iff, Nat.succ_ne_self, and_false, beq_iff_eq,
-      if_false, List.length_take]
+    obtain ⟨h1, h2⟩ := L.pos k
+    have e : limitWith test stop (some (k + 1)) xs = xs.take (k + 1) := by
+      simp only [limitWith, h1, if_true, h2, pyPrefix]
+      rw [if_pos (by omega)]
+      congr 1
+    simp only [e, List.length_take]
     refine ⟨Nat.min_le_left _ _, ?_⟩
     intro q hq hl
     rw [List.prefix_take_iff]
@@ -207,32 +225,41 @@ end Cast
 
 namespace Cast
 
+/-- What the decimal theorems need from the generated factory expressions (`Gen.Cast`). -/
+structure FactoryFacts : Prop where
+  prec : ∀ p : Nat, Gen.Cast.contextPrec p = p
+  scale : ∀ s : Nat, s ≤ 28 → Gen.Cast.quantExp (Gen.Cast.quantScale s) = -(s : Int)
+  rounding : Gen.Cast.rounding = "ROUND_HALF_EVEN"
+  pad : ∀ s : Nat, 0 ≤ Gen.Cast.padCount s ∧ Gen.Cast.padCount s ≤ s
+
 theorem roundTo_id (p : Nat) (neg : Bool) (c : Nat) (e : Int) (h : numDigits c ≤ p) :
     roundTo p (.fin neg c e) = .fin neg c e := by
   simp [roundTo, h]
 
-theorem quantize_up (p q : Nat) (neg : Bool) (c : Nat) (e : Int) (he : -(q : Int) ≤ e)
+theorem quantize_up (p : Nat) (q : Nat) (neg : Bool) (c : Nat) (e : Int) (he : -(q : Int) ≤ e)
     (hd : numDigits (c * 10 ^ (e + q).toNat) ≤ p) :
-    quantize p q (.fin neg c e) = some (.fin neg (c * 10 ^ (e + q).toNat) (-(q : Int))) := by
+    quantize p (-(q : Int)) (.fin neg c e) = some (.fin neg (c * 10 ^ (e + q).toNat) (-(q : Int))) := by
   have e1 : (e - -(q : Int)).toNat = (e + q).toNat := by congr 1; omega
-  simp only [quantize, ge_iff_le, he, if_true, e1]
+  have e2 : rescale c e (-(q : Int)) = c * 10 ^ (e + q).toNat := by
+    simp only [rescale, ge_iff_le, he, if_true, e1]
+  simp only [quantize, e2]
   rw [if_neg (by omega)]
 
 /-- The factory on an already-created decimal that fits. -/
-theorem factory_fits (p s : Nat) (neg : Bool) (c : Nat) (e : Int) (hp : 1 ≤ p)
-    (hs : s ≤ Gen.Cast.maxQuantScale) (he : -(s : Int) ≤ e) (hc : numDigits c ≤ p)
+theorem factory_fits (F : FactoryFacts) (p s : Nat) (neg : Bool) (c : Nat) (e : Int) (hp : 1 ≤ p)
+    (hs : s ≤ 28) (he : -(s : Int) ≤ e) (hc : numDigits c ≤ p)
     (hd : numDigits (c * 10 ^ (e + s).toNat) ≤ p) :
     factory p s (.inr (.fin neg c e)) = .ok (.dec (.fin neg (c * 10 ^ (e + s).toNat) (-(s : Int)))) := by
-  have hm : min s Gen.Cast.maxQuantScale = s := Nat.min_eq_left hs
   unfold factory
-  rw [if_neg (by omega)]
-  simp only [roundTo_id p neg c e hc, hm, quantize_up p s neg c e he hd]
+  rw [F.prec p, if_neg (by omega)]
+  simp only [created, Int.toNat_natCast, roundTo_id p neg c e hc, F.scale s hs, quantize_up p s neg c e he hd]
 
-theorem factory_text (p s : Nat) (t : List Char) (hnd : (!t.isEmpty && allDigits t) = false) (d : Dec)
+theorem factory_text (F : FactoryFacts) (p s : Nat) (t : List Char)
+    (hnd : (!t.isEmpty && allDigits t) = false) (d : Dec)
     (ht : decOfText (stripD t) = some d) (hp : 1 ≤ p) :
     factory p s (.inl t) = factory p s (.inr d) := by
   unfold factory
-  rw [if_neg (by omega), if_neg (by omega)]
-  simp only [hnd, Bool.false_eq_true, if_false, ht, Option.map_some]
+  rw [F.prec p, if_neg (by omega), if_neg (by omega)]
+  simp only [created, padText, hnd, Bool.false_eq_true, if_false, ht, Option.map_some]
 
 end Cast
